@@ -26,6 +26,8 @@ var (
 	docBadUTF8   = []byte("{\"s\":\"a\xffb\",\"t\":\"\\ud800\"}")
 	docSyntaxE   = []byte(`{"a" 1}`)
 	docSemantic  = []byte(`{"id":"not-a-number","name":"x"}`)
+	docSemVal    = []byte(`{"n":"not-a-number-at-all","m":[1,2,3]}`)
+	docSemRange  = []byte(`[1, 2, 3, 4, 5, 6, 7, 8, 9, 10, 11, 12, 300, 14, 15, 16, 17, 18, 19, 20, 21, 22, 23, 24, 25]`)
 	docUnknown   = []byte(`{"id":1,"mystery":[1,2,3],"name":"prefix00-UN1-suffix00"}`)
 	docFold      = []byte(`{"FIRSTNAME":"prefix01-FO0-suffix01","Last_Name":"L","age":36,"firstname":"B"}`)
 	docInline    = []byte(`{"known":1,"u1":[1,2],"u2":{"a":null},"u3":"s"}`)
@@ -299,6 +301,7 @@ func buildPool() {
 			var err error
 			p := guard(func() { err = json.Unmarshal(in, t, opts...) })
 			x.keepVal(t)
+			x.keepErr(err)
 			return Result{Val: renderValue(t), Err: renderErr(err), Panic: p}
 		}})
 	}
@@ -319,6 +322,7 @@ func buildPool() {
 			var err error
 			p := guard(func() { err = json.UnmarshalRead(rd, t, opts...) })
 			x.keepVal(t)
+			x.keepErr(err)
 			return Result{Val: renderValue(t), Err: renderErr(err), Panic: p}
 		}})
 	}
@@ -639,6 +643,16 @@ func buildPool() {
 
 	// F3: Deterministic + AllowDuplicateNames with distinct keys that marshal to the
 	// same name is a listed known finding; it is kept out of the pool (see det.go).
+	// (appended last so that the indexes of the calls above stay what the saved histories refer to)
+	// errors that carry the JSON value that could not be converted: the value must be the error's own copy
+	regMaster(docSemVal, docSemRange)
+	unmarshal("unmarshal/semantic-error/value-in-error", "default", "", docSemVal, func() any {
+		return new(struct {
+			N int `json:"n,string"`
+		})
+	})
+	unmarshalRead("unmarshalread/semantic-error/value-in-error", "default", "", docSemRange, 5, -1, false, func() any { return new([]int8) })
+	unmarshalRead("unmarshalread/semantic-error/value-in-error/bytes.Buffer", "default", "", docSemRange, 0, -1, true, func() any { return new([]int8) })
 }
 
 // rotation returns 0..n-1 in an order that depends on k (insertion orders of
